@@ -921,8 +921,9 @@ func runExchange(sc *Scenario, res *core.Result, verbose bool) {
 	mk := func() *dns.Server {
 		s := &dns.Server{Handler: x, UDPSize: sc.UDPSize, ReadTimeout: time.Hour, IdleTimeout: hourIdle}
 		if sc.Decorate {
+			slow := []time.Duration{0, 0, 2 * time.Millisecond, 20 * time.Millisecond}[sc.RunSeed%4]
 			s.DecorateReader = (&common.Decorator{K: k}).Decorate
-			s.MsgAcceptFunc = (&common.YieldAccept{K: k}).Accept
+			s.MsgAcceptFunc = (&common.YieldAccept{K: k, Slow: slow}).Accept
 		}
 		return s
 	}
